@@ -166,6 +166,36 @@ def policyChecks (isRootAcl : Bool) (rules : List Rule) (op : Op) (path : Path) 
   else if !r.rootPrivs && rootPrivsRequired && op != .help then false
   else true
 
+/-- `ACL.Capabilities` as `Core.Capabilities` returns it (sorted): the names carried by the rule that a LIST of the
+path selects; `root` for the root ACL; `deny` when that rule names deny or nothing is selected -/
+def capabilityList (isRootAcl : Bool) (rules : List Rule) (path : Path) : List String :=
+  if isRootAcl then ["root"] else
+  match selectPerms rules .list path with
+  | Option.none => ["deny"]
+  | some c =>
+    if c.deny then ["deny"] else
+    let l := (if c.create then ["create"] else []) ++ (if c.delete then ["delete"] else []) ++
+             (if c.list then ["list"] else []) ++ (if c.patch then ["patch"] else []) ++
+             (if c.read then ["read"] else []) ++ (if c.scan then ["scan"] else []) ++
+             (if c.sudo then ["sudo"] else []) ++ (if c.update then ["update"] else [])
+    if l.isEmpty then ["deny"] else l
+
+/-- the capability name of a path operation -/
+def Op.capName : Op → Option String
+  | .read => some "read" | .list => some "list" | .update => some "update" | .delete => some "delete"
+  | .create => some "create" | .patch => some "patch" | .scan => some "scan"
+  | _ => Option.none
+
+/-- `Core.Capabilities(ctx, token, path)`: the token's ACL (rules stored under their ABSOLUTE paths: `parsePaths`
+prefixes the policy's namespace) is asked about the path **in the namespace of the request** (`reqNs`, a path
+prefix ending in '/' or empty) — the namespace `AllowOperation` evaluates that token's requests in. -/
+def coreCapabilities (isRootAcl : Bool) (rules : List Rule) (reqNs _tokenNs : Path) (path : Path) : List String :=
+  capabilityList isRootAcl rules (reqNs ++ path)
+
+/-- seeded change C03-4: the report is evaluated in the TOKEN's namespace -/
+def coreCapabilitiesInTokenNs (isRootAcl : Bool) (rules : List Rule) (_reqNs tokenNs : Path) (path : Path) : List String :=
+  capabilityList isRootAcl rules (tokenNs ++ path)
+
 /-! ### state -/
 
 /-- special-path table of a backend (`PathsToRadix`): key without the `*`, flag = prefix match -/
